@@ -125,9 +125,9 @@ def render_select(q):
 
 # ------------------------------------------------------------------------------------- generation
 NODE_CONSTS = [1, 2, 3]
-PRED_CONSTS = [1, 2, 4, 5, 10, 7]
-PIDS = [bqlu.sid("p"), bqlu.sid("q"), bqlu.sid("a"), bqlu.sid("r")]
-BOUNDS = [(0, 0), (2, 0), (0, 2), (2, 3), (3, 3), (1, 4)]
+PRED_CONSTS = [1, 2, 4, 5, 10, 7, 12, 14]
+PIDS = [bqlu.sid("p"), bqlu.sid("q"), bqlu.sid("a"), bqlu.sid("r"), bqlu.sid("s")]
+BOUNDS = [(0, 0), (2, 0), (0, 2), (2, 4), (4, 4), (1, 6), (3, 5)]
 OBJ_CONSTS = [bqlu.N(2), bqlu.N(1), bqlu.I(-5), bqlu.X("a"), bqlu.P(2), bqlu.P(1), bqlu.F(5), bqlu.B(1), bqlu.I(2)]
 VARS = ["?a", "?b", "?c", "?d", "?e"]
 
@@ -219,7 +219,7 @@ class Gen:
             return name
 
         s = S(c=s_) if r.random() < 0.3 else S(b=var_for(("N", s_)))
-        pid, tmp, n = bqlu.PREDS[p_ - 1]
+        pid, tmp, n = bqlu.PREDS[p_ - 1][:3]
         x = r.random()
         if x < 0.4:
             p = P(c=p_)
@@ -228,7 +228,7 @@ class Gen:
         elif x < 0.85:
             p = P(pid=bqlu.sid(pid), ab=var_for(("T", n)))
         else:
-            lo, hi = r.choice([(0, 0), (n, 0), (0, n), (n, n), (max(1, n - 1), min(4, n + 1))])
+            lo, hi = r.choice([(0, 0), (n, 0), (0, n), (n, n), (max(1, n - 1), min(len(bqlu.INSTANTS), n + 1))])
             p = P(pid=bqlu.sid(pid), bd=True, lo=lo, hi=hi)
         x = r.random()
         kinds = ["as", "ty", "id", "at"]
@@ -236,7 +236,7 @@ class Gen:
             o = O(cell=o_)
             kinds = {"N": ["as", "ty", "id"], "P": ["as", "id", "at"]}.get(o_["k"], ["as"])
         elif o_["k"] == "P" and bqlu.PREDS[o_["v"] - 1][1] and x < 0.45:
-            opid, _, on = bqlu.PREDS[o_["v"] - 1]
+            opid, _, on = bqlu.PREDS[o_["v"] - 1][:3]
             o = O(pid=bqlu.sid(opid), ab=var_for(("T", on)))
             kinds = ["as", "id", "at"]
         else:
@@ -273,7 +273,7 @@ class Gen:
         return [sorted(g) for g in gs]
 
     def bounds(self):
-        return self.rng.choice([(0, 0), (0, 0), (0, 0), (2, 0), (0, 3), (2, 3), (3, 3)])
+        return self.rng.choice([(0, 0), (0, 0), (0, 0), (2, 0), (0, 4), (2, 4), (4, 4), (3, 5)])
 
     def proj(self, clauses, p_all=0.6):
         ns = pattern_names(clauses)
